@@ -31,6 +31,13 @@ impl<T> Slab<T> {
     { unimplemented!() }
 
     #[verifier::external_body]
+    pub fn vacant_key(&self) -> (key: usize)
+        ensures
+            !self@.dom().contains(key),
+            key <= u32::MAX,
+    { unimplemented!() }
+
+    #[verifier::external_body]
     pub fn remove(&mut self, key: usize) -> (val: T)
         requires old(self)@.dom().contains(key), // slab panics with "invalid key" otherwise
         ensures
@@ -174,6 +181,7 @@ impl ResolveRegistry {
             r.effect == effect.serialize_spec().0, // [C09/register/payload-is-what-serialize-returned]
             final(self)@.dom().contains(r.id.0 as usize) ==> final(self)@[r.id.0 as usize] == effect.serialize_spec().1, // [C02+C09/register/entry-is-the-effects-own-continuation]
             kind(effect.serialize_spec().1) != 0 ==> final(self)@.dom().contains(r.id.0 as usize), // [C09/register/resolvable-request-is-remembered]
+            final(self)@.dom().contains(r.id.0 as usize), // [C02+C09+C12/register/the-id-handed-out-stays-occupied-so-no-later-request-can-be-issued-under-an-id-the-shell-may-still-answer]
             kind(effect.serialize_spec().1) == 0 ==> final(self)@ == old(self)@, // [C13/register/request-that-can-never-be-resolved-is-not-remembered]
 //@rule X4.lock-erasure * s/self\s*\.0\s*\.lock\(\)\s*\.expect\("[^"]*"\)/(&mut self.0.inner)/
 //@rule X8.closure-wildcard * s/\|_\|/|_e|/
